@@ -2085,8 +2085,8 @@ async fn nsec3_for_ds(
         let owner = g.owner();
         let first = owner.first();
         let ownerhash = match nsec3_label_to_hash(owner.first()) {
-            Ok(hash) => hash,
-            Err(_) => {
+            Some(hash) => hash,
+            None => {
                 ede = make_ede(
                     ExtendedErrorCode::DNSSEC_BOGUS,
                     "NSEC3 with bad owner hash",
